@@ -14,8 +14,15 @@
                         the KKT object has the right shape; if it has not been refreshed since setup/update
                         (sv_kkt_init_state) its matrix is positive definite and it satisfies KShape, KSign
      P_psd is preserved by the Ruiz scaling: P_psd_scaled.
-   NOT PROVED here: the convergence claim of C02 (solves_W_partial, see Properties_C02.v); absence of Err results
-   (the theorems are of the form "if solve returns Ok ... then ..."). *)
+     idx_err e          e = Index \/ e = Shape (errors of pure index manipulation: get / upd / gather / scatter / swap)
+     solver_convex_pos  solver_convex and, for a never-refreshed KKT object, wf_scal and pos_scal (true after setup)
+     fact_pos k         every pivot stored in k_fact k is non-zero
+   No division by zero: C02_solve_no_divzero_convex covers EVERY division site of solve() (kkt_update_scalings / update_kkt
+   (w terms, 1/delta, box terms), the LLT pivots of both factorisation modes, llt_solve, the refinement loop, both
+   kkt_solve calls, the three step-length ratio loops, sigma, mu, mu_rate, the Mehrotra initial point (via
+   initial_point_interior of InteriorProofs.v)): any Err of solve is Index, Shape or Fuel.
+   NOT PROVED here: the convergence claim of C02 (solves_W_partial, see Properties_C02.v); absence of Index / Shape /
+   Fuel errors (index ranges and fuel bounds are the subject of C06 / C12). *)
 From PIQP Require Import Base Data Bounds PrecondDense KKTDense IPM API InteriorProofs.
 From PIQP Require Import LinAlg LLTProofs KKTProofs PDProofs ConvexLoopProofs.
 From PIQP Require InteriorExamples.
@@ -101,6 +108,57 @@ Theorem C02_P_psd_scaled : forall (d0 d : Data) (c : F) (dl : Vec),
 Proof. exact P_psd_scaled. Qed.
 Print Assumptions C02_P_psd_scaled.
 
+(* ---------------------------------------------------------------- no division by zero *)
+Theorem C02_kkt_solve_err_kind : forall (SS : Settings) (d : Data) (k : KKT) (refine : bool)
+    (rx ry rz rzlb rzub rs rslb rsub : Vec) (e : err),
+  wf_data d -> wf_scal d k -> pos_scal d k -> (exists f, k_fact k = Some f) -> fact_pos k ->
+  kkt_solve SS d k refine rx ry rz rzlb rzub rs rslb rsub = Err e -> idx_err e.
+Proof. exact kkt_solve_err_kind. Qed.
+Print Assumptions C02_kkt_solve_err_kind.
+
+Theorem C02_kkt_update_scalings_err_kind : forall (d : Data) (kk : KKT) (rho delta : F) (s s_lb s_ub z z_lb z_ub : Vec) (e : err),
+  wf_data d -> kkt_shape d kk -> 0 < rho -> 0 < delta -> iter_pos d s s_lb s_ub z z_lb z_ub ->
+  kkt_update_scalings d kk rho delta s s_lb s_ub z z_lb z_ub = Err e -> idx_err e.
+Proof. exact kkt_update_scalings_err_kind. Qed.
+Print Assumptions C02_kkt_update_scalings_err_kind.
+
+Theorem C02_regularize_and_factorize_pd_pos : forall (SS : Settings) (d : Data) (k : KKT) (refine : bool),
+  kkt_pd k -> exists f, regularize_and_factorize SS d k refine false = Ok (k <| k_fact := Some f |>, true) /\
+                        forall x, In x (f_D f) -> x <> 0.
+Proof. exact regularize_and_factorize_pd_pos. Qed.
+Print Assumptions C02_regularize_and_factorize_pd_pos.
+
+Theorem C02_loop_pass_err_kind : forall (K : Consts) (SS : Settings) (d : Data) (pc : Precond) (cp : F -> F),
+  0 < k_eps K -> wf_data d -> P_psd d ->
+  forall (st : St) (e : err),
+  ConvexInv d st -> loop_pass K SS d pc (fun _ => false) cp st = Err e -> idx_err e.
+Proof. intros K SS d pc cp H1 H2 H3 st e. eapply loop_pass_err_kind; eauto. Qed.
+Print Assumptions C02_loop_pass_err_kind.
+
+Theorem C02_main_loop_no_divzero : forall (K : Consts) (SS : Settings) (d : Data) (pc : Precond) (cp : F -> F),
+  cp_pos cp -> 0 < tau SS -> tau SS < 1 -> 0 < reg_finetune_lower_limit SS -> 0 < eps_abs SS ->
+  0 < k_eps K -> 0 < k_retry_mul K -> 0 < k_reglim_mul K ->
+  DataShape d -> wf_data d -> P_psd d ->
+  forall (fuel : nat) (st : St) (e : err),
+  ConvexInv d st -> main_loop K SS d pc (fun _ => false) cp fuel st = Err e -> e <> DivZero.
+Proof. exact main_loop_no_divzero. Qed.
+Print Assumptions C02_main_loop_no_divzero.
+
+Theorem C02_setup_state_convex_pos : forall (junk : F) (sv : Solver),
+  wf_data (sv_data sv) -> DataShape (sv_data sv) -> P_psd (sv_data sv) ->
+  0 < rho_init (sv_set sv) -> 0 < delta_init (sv_set sv) ->
+  kkt_init (sv_data sv) (rho_init (sv_set sv)) (delta_init (sv_set sv)) junk = Ok (sv_kkt sv) ->
+  solver_convex_pos sv.
+Proof. exact setup_state_convex_pos. Qed.
+Print Assumptions C02_setup_state_convex_pos.
+
+(* complete (not partial): every division site of solve() is covered *)
+Theorem C02_solve_no_divzero_convex : forall (K : Consts) (junk : F) (cp_bits : Z) (sv : Solver) (e : err),
+  consts_ok K -> settings_ok (sv_set sv) -> solver_convex_pos sv ->
+  solve K junk cp_bits (fun _ => false) sv = Err e -> e <> DivZero.
+Proof. exact solve_no_divzero_convex. Qed.
+Print Assumptions C02_solve_no_divzero_convex.
+
 (* ---------------------------------------------------------------- non-vacuity: the instance of InteriorExamples.v, real constants *)
 Example C02_ex_consts_settings_ok : consts_ok consts /\ settings_ok InteriorExamples.ex_settings.
 Proof. exact ex_consts_settings_ok. Qed.
@@ -116,3 +174,8 @@ Example C02_ex_solve_convex :
   end.
 Proof. exact ex_solve_convex. Qed.
 Print Assumptions C02_ex_solve_convex.
+
+Example C02_ex_solver_convex_pos :
+  match InteriorExamples.ex_sv_res with Ok sv => solver_convex_pos sv | Err _ => False end.
+Proof. exact ex_solver_convex_pos. Qed.
+Print Assumptions C02_ex_solver_convex_pos.
